@@ -142,39 +142,47 @@ structure St where
   last : Nat
   deriving Repr
 
+/-- `pick(true)`: the carried-over packet, else the head of the queue -/
+def pick (st : St) : Option Pkt × List Pkt :=
+  match st.peek, st.q with
+  | some n, q => (some n, q)
+  | none, h :: t => (some h, t)
+  | none, [] => (none, [])
+
+/-- `for n.Flags.Group() == l && len(s.send) > 0 { n = <-s.send }` -/
+def skipGroup (last : Nat) : Pkt → List Pkt → Pkt × List Pkt
+  | n, [] => (n, [])
+  | n, h :: tl => if Flag.group n.flags = last then skipGroup last h tl else (n, h :: tl)
+
+def isRekey (n : Pkt) : Bool := n.id = 0 && hasFlag n.flags Facts.flagCrypt
+
+/-- the rest of `next` once a packet `n` has been picked and `q` is what is left in the queue -/
+def nextFrom (last : Nat) (i : Bytes) (n : Pkt) (q : List Pkt) : Option Pkt × St :=
+  -- a re-key packet (ID 0 with the Crypt flag) is always sent on its own
+  if (q = [] ∨ isRekey n) ∧ (verify n i).2 then
+    (some (verify n i).1, { q := q, peek := none, last := 0 })
+  else if last > 0 then
+    -- skip queued packets of the group the peer asked to abandon
+    if Flag.group (skipGroup last n q).1.flags = last then
+      (some { id := 0, job := 0, flags := 0, tags := n.tags, dev := i, payload := [] },
+       { q := (skipGroup last n q).2, peek := none, last := 0 })
+    else
+      ((nextPacket P F (skipGroup last n q).2 (some (skipGroup last n q).1) i n.tags).1.map
+          fun o => { o with tags := mergeTags o.tags n.tags },
+       { q := (nextPacket P F (skipGroup last n q).2 (some (skipGroup last n q).1) i n.tags).2.2,
+         peek := (nextPacket P F (skipGroup last n q).2 (some (skipGroup last n q).1) i n.tags).2.1,
+         last := 0 })
+  else
+    ((nextPacket P F q (some n) i n.tags).1.map fun o => { o with tags := mergeTags o.tags n.tags },
+     { q := (nextPacket P F q (some n) i n.tags).2.2, peek := (nextPacket P F q (some n) i n.tags).2.1,
+       last := last })
+
 /-- `(*Session).next(true)` on the non-blocking arms (no proxy attached): returns the packet for
 this transmission (or none when there is nothing to send) and the new state. -/
 def next (st : St) (i : Bytes) : Option Pkt × St :=
-  -- pick(true)
-  let (n, q) : Option Pkt × List Pkt := match st.peek, st.q with
-    | some n, q => (some n, q)
-    | none, h :: t => (some h, t)
-    | none, [] => (none, [])
-  match n with
+  match (pick st).1 with
   | none => (none, { st with peek := none })
-  | some n =>
-    let v := verify n i
-    -- a re-key packet (ID 0 with the Crypt flag) is always sent on its own
-    if (q = [] ∨ (n.id = 0 ∧ hasFlag n.flags Facts.flagCrypt)) ∧ v.2 then
-      (some v.1, { q := q, peek := none, last := 0 })
-    else
-      let t := n.tags
-      if st.last > 0 then
-        -- skip queued packets of the group the peer asked to abandon
-        let rec skip (n : Pkt) (q : List Pkt) : Pkt × List Pkt :=
-          match q with
-          | h :: tl => if Flag.group n.flags = st.last then skip h tl else (n, q)
-          | [] => (n, [])
-        let (n, q) := skip n q
-        if Flag.group n.flags = st.last then
-          (some { id := 0, job := 0, flags := 0, tags := t, dev := i, payload := [] },
-           { q := q, peek := none, last := 0 })
-        else
-          ((nextPacket P F q (some n) i t).1.map fun o => { o with tags := mergeTags o.tags t },
-           { q := (nextPacket P F q (some n) i t).2.2, peek := (nextPacket P F q (some n) i t).2.1, last := 0 })
-      else
-        ((nextPacket P F q (some n) i t).1.map fun o => { o with tags := mergeTags o.tags t },
-         { q := (nextPacket P F q (some n) i t).2.2, peek := (nextPacket P F q (some n) i t).2.1, last := st.last })
+  | some n => nextFrom P F st.last i n (pick st).2
 
 end
 
